@@ -378,6 +378,68 @@ def handleHist (r : Nat) (args : List String) : String :=
   | none => "bad-op"
   | some (b, calls) => " ".intercalate (histAnswers r b calls)
 
+/-! ### call histories on Miller-loop outputs (`fehist`)
+
+`fehist <curve> <g> <n> (<s> a₁…a_s b₁…b_s)×g (<m> i₁…i_m)×n`: `M_j = MillerLoop` of the j-th sub-list of pairs `([a]G1,[b]G2)` is
+computed ONCE; then `n` calls `FinalExponentiation(&M_{i₁}, &M_{i₂}, …)` (variadic) on the SAME objects. The specification is BY
+VALUE: a call is answered from the sub-lists it names only (`feCall`) - `11` (= `Pair` of the concatenated sub-lists,
+= `e(G1,G2)^(Σ ab)`), then the bit `value = 1`, which the model COMPUTES as `Σ ab ≡ 0 (mod r)`, then `:1` = every Miller-loop output
+bit-identical to its snapshot (FinalExponentiation does not write through its arguments). -/
+
+/-- `Σ ab` over the sub-lists named by a call (an index out of range contributes nothing; the parser rejects it) -/
+def feExponent (groups : List (List Int × List Int)) (idx : List Nat) : Int :=
+  (idx.map fun j => match groups[j]? with
+    | some (a, b) => dot a b
+    | none => 0).foldl (· + ·) 0
+
+/-- the answer to ONE call of a `fehist` history: a function of this call's arguments only -/
+def feCall (r : Nat) (groups : List (List Int × List Int)) (idx : List Nat) : String :=
+  "11" ++ boolStr (feExponent groups idx % (r : Int) == 0) ++ ":1"
+
+def feAnswers (r : Nat) (groups : List (List Int × List Int)) (calls : List (List Nat)) : List String :=
+  calls.map (feCall r groups)
+
+/-- `n` blocks `<s> a₁…a_s b₁…b_s`, 1 ≤ s ≤ 5; returns the unread tokens -/
+def parseGroups : Nat → List String → Option (List (List Int × List Int) × List String)
+  | 0, rest => some ([], rest)
+  | _ + 1, [] => none
+  | n + 1, ss :: rest =>
+    match parseCount ss with
+    | none => none
+    | some s =>
+      if s == 0 || s > 5 || rest.length < 2 * s then none else
+      match parseAll (rest.take s), parseAll ((rest.drop s).take s), parseGroups n (rest.drop (2 * s)) with
+      | some a, some b, some (gs, rest') => some ((a, b) :: gs, rest')
+      | _, _, _ => none
+
+/-- `n` blocks `<m> i₁…i_m`, 1 ≤ m ≤ 4, decimal indices `< g`; returns the unread tokens -/
+def parseFeCalls (g : Nat) : Nat → List String → Option (List (List Nat) × List String)
+  | 0, rest => some ([], rest)
+  | _ + 1, [] => none
+  | n + 1, sm :: rest =>
+    match parseCount sm with
+    | none => none
+    | some m =>
+      if m == 0 || m > 4 || rest.length < m then none else
+      match (rest.take m).mapM parseCount, parseFeCalls g n (rest.drop m) with
+      | some idx, some (cs, rest') => if idx.all (· < g) then some (idx :: cs, rest') else none
+      | _, _ => none
+
+def handleFeHist (r : Nat) (args : List String) : String :=
+  match args with
+  | sg :: sn :: rest =>
+    match parseCount sg, parseCount sn with
+    | some g, some n =>
+      if g == 0 || g > 8 || n == 0 || n > 8 then "bad-op" else
+      match parseGroups g rest with
+      | none => "bad-op"
+      | some (groups, rest') =>
+        match parseFeCalls g n rest' with
+        | some (calls, []) => " ".intercalate (feAnswers r groups calls)
+        | _ => "bad-op"
+    | _, _ => "bad-op"
+  | _ => "bad-op"
+
 /-- ops that need the pairing of the curve -/
 def handleCurve {τ κ : Type} (C : PCurve τ κ) (op : String) (args : List String) : String :=
   match op with
@@ -426,6 +488,7 @@ def handleCurve {τ κ : Type} (C : PCurve τ κ) (op : String) (args : List Str
     | some [_, _] => "1"
     | _ => "bad-op"
   | "hist" => handleHist C.r args
+  | "fehist" => handleFeHist C.r args
   | _ => "bad-op"
 
 def handle (ws : List String) : String :=
